@@ -1,7 +1,7 @@
 //! Concurrency harness for C15 / C16 / C20: drives the REAL `sierradb::Database` with concurrent
 //! appenders and readers and prints the trace.
 //!
-//! A case line is `cc kind=.. B=.. T=.. R=.. C=.. M=.. S=.. K=.. N=.. pay=.. sync=.. hold=.. seed=.. | <item> ; <item> ...`
+//! A case line is `cc kind=.. B=.. T=.. R=.. C=.. M=.. S=.. K=.. N=.. pay=.. sync=.. hold=.. tsync=.. seed=.. | <item> ; <item> ...`
 //! (the part before ` | ` is the schedule/configuration, everything random derives from `seed`; the part
 //! after it is the recorded trace, which is what the model driver and the monitors validate), or
 //! `route nb=.. nt=.. pos=a,b,..` for the bucket -> writer-thread routing function.
@@ -34,6 +34,17 @@ const SEG: usize = 128 * 1024;
 const GOOD_TS: u64 = 1_700_000_000_000_000_000;
 
 static CLOCK: AtomicU64 = AtomicU64::new(0);
+/// total time (ns) the harness itself held a thread of the system at a pause point: not the database's latency
+/// a writer thread of a finished run may still be alive: its hook events would pollute the next run's trace
+static STUCK: AtomicBool = AtomicBool::new(false);
+static HELD_NS: AtomicU64 = AtomicU64::new(0);
+static HOLDING: AtomicU64 = AtomicU64::new(0);      // number of holds in progress
+static HOLD_START_NS: AtomicU64 = AtomicU64::new(0);
+fn now_ns() -> u64 { use std::sync::OnceLock; static T0: OnceLock<Instant> = OnceLock::new(); T0.get_or_init(Instant::now).elapsed().as_nanos() as u64 }
+fn hold_begin() -> u64 { HOLDING.fetch_add(1, Ordering::SeqCst); now_ns() }
+fn hold_end(t0: u64) { HELD_NS.fetch_add(now_ns().saturating_sub(t0), Ordering::SeqCst); HOLDING.fetch_sub(1, Ordering::SeqCst); }
+/// harness-induced delay accumulated so far, including a hold still in progress
+fn held_now() -> u64 { let _ = &HOLD_START_NS; HELD_NS.load(Ordering::SeqCst) }
 fn tick() -> u64 { CLOCK.fetch_add(1, Ordering::SeqCst) + 1 }
 
 #[derive(Clone, Copy, Debug, PartialEq)]
@@ -68,18 +79,18 @@ fn payload(eid: u64, len: usize) -> Vec<u8> {
 #[derive(Clone, Debug)]
 struct Cfg {
     kind: String, b: u16, t: u16, r: u16, c: usize, m: usize, s: u64, k: usize, n: usize,
-    pay: usize, sync: u64, hold: u64, seed: u64,
+    pay: usize, sync: u64, hold: u64, tsync: u64, seed: u64,
 }
 impl Cfg {
     fn show(&self) -> String {
-        format!("cc kind={} B={} T={} R={} C={} M={} S={} K={} N={} pay={} sync={} hold={} seed={}",
-            self.kind, self.b, self.t, self.r, self.c, self.m, self.s, self.k, self.n, self.pay, self.sync, self.hold, self.seed)
+        format!("cc kind={} B={} T={} R={} C={} M={} S={} K={} N={} pay={} sync={} hold={} tsync={} seed={}",
+            self.kind, self.b, self.t, self.r, self.c, self.m, self.s, self.k, self.n, self.pay, self.sync, self.hold, self.tsync, self.seed)
     }
     fn parse(line: &str) -> Option<Cfg> {
         let head = line.split(" | ").next()?;
         let mut it = head.split_whitespace();
         if it.next()? != "cc" { return None; }
-        let mut c = Cfg { kind: "stress".into(), b: 1, t: 1, r: 2, c: 2, m: 1, s: 2, k: 1, n: 10, pay: 9000, sync: 5, hold: 0, seed: 1 };
+        let mut c = Cfg { kind: "stress".into(), b: 1, t: 1, r: 2, c: 2, m: 1, s: 2, k: 1, n: 10, pay: 9000, sync: 5, hold: 0, tsync: 0, seed: 1 };
         for f in it {
             let (a, v) = f.split_once('=')?;
             match a {
@@ -87,7 +98,7 @@ impl Cfg {
                 "B" => c.b = v.parse().ok()?, "T" => c.t = v.parse().ok()?, "R" => c.r = v.parse().ok()?,
                 "C" => c.c = v.parse().ok()?, "M" => c.m = v.parse().ok()?, "S" => c.s = v.parse().ok()?,
                 "K" => c.k = v.parse().ok()?, "N" => c.n = v.parse().ok()?, "pay" => c.pay = v.parse().ok()?,
-                "sync" => c.sync = v.parse().ok()?, "hold" => c.hold = v.parse().ok()?, "seed" => c.seed = v.parse().ok()?,
+                "sync" => c.sync = v.parse().ok()?, "hold" => c.hold = v.parse().ok()?, "tsync" => c.tsync = v.parse().ok()?, "seed" => c.seed = v.parse().ok()?,
                 _ => {}
             }
         }
@@ -138,8 +149,12 @@ impl Gate {
     fn pass(&self) {
         if !self.armed.swap(false, Ordering::SeqCst) { return; }
         self.arrived.store(true, Ordering::SeqCst);
-        let g = self.open.lock().unwrap();
-        let _ = self.cv.wait_timeout_while(g, Duration::from_secs(20), |o| !*o);
+        let t0 = hold_begin();
+        {
+            let g = self.open.lock().unwrap();
+            let _ = self.cv.wait_timeout_while(g, Duration::from_secs(20), |o| !*o);
+        }
+        hold_end(t0);
     }
     fn release(&self) { self.armed.store(false, Ordering::SeqCst); *self.open.lock().unwrap() = true; self.cv.notify_all(); }
     async fn wait_arrived(&self, max: Duration) -> bool {
@@ -194,7 +209,7 @@ fn install_hooks(sh: &Arc<Shared>) {
                 let at = tick();
                 s.roll_open.lock().unwrap().insert(bucket, (seg, at));
                 s.rollovers.fetch_add(1, Ordering::SeqCst);
-                if s.cfg.hold > 0 { std::thread::sleep(Duration::from_millis(s.cfg.hold)); }
+                if s.cfg.hold > 0 { let t0 = hold_begin(); std::thread::sleep(Duration::from_millis(s.cfg.hold)); hold_end(t0); }
                 s.gate_swapped.pass();
             }
             "wtp.rollover.installed" => {
@@ -220,6 +235,11 @@ fn open_db(cfg: &Cfg, dir: &std::path::Path) -> Result<Database, String> {
         .sync_idle_interval(Duration::from_millis(cfg.idle_ms()))
         .cache_capacity_bytes(4 * 1024 * 1024)
         .compression(false);
+    if cfg.tsync != 0 {
+        // timer-driven syncs only: appended data stays pending until the syncer's FlushPoll (or the interval check at the
+        // end of a later write), so rollovers and acknowledgements meet unsynced data
+        b.min_sync_bytes(usize::MAX / 2).max_batch_size(1_000_000);
+    }
     match common::catch(|| b.open(dir)) {
         Some(Ok(db)) => Ok(db),
         Some(Err(e)) => Err(format!("{e}")),
@@ -271,12 +291,16 @@ async fn do_append(sh: &Arc<Shared>, c: usize, op: u64, k: usize, xseq: Xv, evs:
     }
     let tx = Transaction::new(key_uuid(k), pid, news).unwrap().expected_partition_sequence(xseq.real());
     let b = tick();
+    let held0 = held_now();
     let t0 = Instant::now();
     let res = {
         use futures::FutureExt;
-        std::panic::AssertUnwindSafe(tokio::time::timeout(cfg.bound(), sh.db.append_events(tx))).catch_unwind().await
+        // the time the harness itself holds the system at a pause point is not the database's latency: the hard limit
+        // leaves room for it, the bound is applied to the elapsed time minus the holds
+        std::panic::AssertUnwindSafe(tokio::time::timeout(cfg.bound() + Duration::from_millis(1500), sh.db.append_events(tx))).catch_unwind().await
     };
-    let ms = t0.elapsed().as_millis() as u64;
+    let held = held_now().saturating_sub(held0) / 1_000_000;
+    let ms = (t0.elapsed().as_millis() as u64).saturating_sub(held);
     let e = tick();
     sh.max_ms.fetch_max(ms, Ordering::SeqCst);
     let (mut o, mut g, mut t) = (0, 0, 0);
@@ -567,7 +591,7 @@ fn run_once(rt: &tokio::runtime::Runtime, cfg: &Cfg) -> RunOut {
     rt.block_on(async {
         scenario(&sh).await;
         sh.gate_swapped.release(); sh.gate_replied.release();
-        let _ = tokio::time::timeout(Duration::from_secs(10), sh.db.shutdown()).await;
+        if tokio::time::timeout(Duration::from_secs(15), sh.db.shutdown()).await.is_err() { STUCK.store(true, Ordering::SeqCst); }
     });
     verif_hooks::set_point(None);
     let mut items = sh.log.lock().unwrap().clone();
@@ -599,6 +623,10 @@ fn run_cfg(rt: &tokio::runtime::Runtime, cfg: &Cfg, out: &mut common::Out) {
     let case = format!("{} | {}", cfg.show(), last.items.iter().map(|i| i.show()).collect::<Vec<_>>().join(" ; "));
     out.case(&case, &format!("{} slow={}/{}", last.summary, if last.slow { slow_n } else { 0 }, attempts));
     out.flush();
+    if STUCK.load(Ordering::SeqCst) {
+        eprintln!("cconc: a database did not shut down within 15 s; stopping here (remaining cases are not run)");
+        std::process::exit(0);
+    }
 }
 
 fn run_route(line: &str, out: &mut common::Out) {
@@ -647,7 +675,8 @@ fn gen_cfg(rng: &mut Rng, kind: &str, thorough: bool) -> Cfg {
         kind: kind.into(), b, t, r: rng.range(1, 4) as u16, c: rng.range(2, if thorough { 10 } else { 6 }) as usize, m: rng.range(1, 4) as usize,
         s: s.max(k as u64), k, n: match kind { "stress" => rng.range(8, if thorough { 40 } else { 20 }) as usize, "window" => rng.range(1, 2) as usize, _ => 1 },
         pay: match kind { "window" => rng.range(9000, 24000) as usize, _ => *rng.pick(&[3000usize, 9000, 16000, 30000]) },
-        sync: *rng.pick(&[2u64, 5, 5, 10]), hold: if kind == "stress" { *rng.pick(&[0u64, 0, 1, 3]) } else { 0 }, seed: rng.next() % 1_000_000,
+        sync: *rng.pick(&[2u64, 5, 5, 10]), hold: if kind == "stress" { *rng.pick(&[0u64, 0, 1, 3]) } else { 0 },
+        tsync: match kind { "latepoll" => rng.chance(2, 3) as u64, _ => rng.chance(1, 3) as u64 }, seed: rng.next() % 1_000_000,
     }
 }
 
